@@ -6,7 +6,7 @@ re-opens exactly the proof obligations that depend on it.
 
 Usage: extract_constants.py [--repo /repo] [--out path]   (exit 0 written/unchanged, 3 = a constant
 could not be located: the previous file is kept and the caller reports a broken translator tie)."""
-import ast, sys, os, json, importlib
+import ast, sys, os, json, importlib, re
 from fractions import Fraction
 
 REPO = os.environ.get("LABELLA_REPO", "/repo")
@@ -64,6 +64,9 @@ def the_one(vals, what):
     return s.pop()
 
 
+SECTIONS = [('vpsc', '# ---- vpsc\nC["lagrangianTolerance"] = ("rat", rat(vpsc.Solver.LAGRANGIAN_TOLERANCE))\nC["zeroUpperBound"] = ("rat", rat(vpsc.Solver.ZERO_UPPERBOUND))\nt = parse("labella/vpsc.py")\nsolve = find_func(t, "solve", "Solver")\nC["solveCostTolerance"] = ("rat", rat(the_one([v for v in num_literals(solve)], "Solver.solve literal")))\ndfdv = find_func(t, "dfdv", "Variable")\nC["dfdvFactor"] = ("rat", rat(the_one(num_literals(dfdv), "Variable.dfdv literal")))'), ('removeOverlap', '# ---- removeOverlap\nfor k in ("lineSpacing", "nodeSpacing"):\n    C["ro_" + k] = ("rat", rat(ro.DEFAULT_OPTIONS[k]))\nfor k in ("minPos", "maxPos"):\n    C["ro_" + k] = ("optrat", ro.DEFAULT_OPTIONS[k])\nt = parse("labella/removeOverlap.py")\nf = find_func(t, "removeOverlap")\nwalls = []\nfor n in ast.walk(f):\n    if isinstance(n, ast.Call) and isinstance(n.func, ast.Attribute) and n.func.attr == "Variable" and len(n.args) >= 2:\n        if isinstance(n.args[1], ast.Constant):\n            walls.append(n.args[1].value)\n        elif isinstance(n.args[1], ast.Name) and isinstance(getattr(ro, n.args[1].id, None), (int, float)):\n            walls.append(getattr(ro, n.args[1].id))      # a module-level named constant\nif len(walls) != 2:\n    raise KeyError("removeOverlap wall variables: expected 2, found %d" % len(walls))\nC["wallWeight"] = ("rat", rat(the_one(walls, "wall weight")))\nhalves = [n for n in ast.walk(f) if isinstance(n, ast.BinOp) and isinstance(n.op, ast.Div) and isinstance(n.right, ast.Constant)]\nC["halfDivisor"] = ("rat", rat(the_one([n.right.value for n in halves], "removeOverlap divisors")))'), ('distributor / force defaults', '# ---- distributor / force defaults\nfor k in ("layerWidth", "density", "nodeSpacing", "stubWidth"):\n    C["dist_" + k] = ("rat", rat(dist.DEFAULT_OPTIONS[k]))\nC["dist_algorithm"] = ("str", dist.DEFAULT_OPTIONS["algorithm"])\nfor k in ("nodeSpacing", "density", "stubWidth"):\n    C["force_" + k] = ("rat", rat(force.DEFAULT_OPTIONS[k]))\nfor k in ("minPos", "maxPos"):\n    C["force_" + k] = ("optrat", force.DEFAULT_OPTIONS[k])\nC["force_algorithm"] = ("str", force.DEFAULT_OPTIONS["algorithm"])\nt = parse("labella/distributor.py")\nf = find_func(t, "algorithm_overlap", "Distributor")\ninner = [n for n in ast.walk(f) if isinstance(n, ast.While) and isinstance(n.test, ast.BoolOp)]\nif len(inner) != 1:\n    raise KeyError("algorithm_overlap inner loop")\nC["overlapMinLabels"] = ("rat", rat(the_one([n.comparators[0].value for n in ast.walk(inner[0].test)\n                                             if isinstance(n, ast.Compare) and isinstance(n.comparators[0], ast.Constant)],\n                                            "len(nodesInCurrentLayer) > k")))'), ('linear scale ticks', '# ---- linear scale ticks\nt = parse("labella/scale.py")\nf = find_func(t, "d3_scale_linearTickRange")\ncmps = []\nmuls = []\nfor n in ast.walk(f):\n    if isinstance(n, ast.If) and isinstance(n.test, ast.Compare) and isinstance(n.test.left, ast.Name) and n.test.left.id == "err":\n        cmps.append((n.test.comparators[0].value, type(n.test.ops[0]).__name__))\n        aug = n.body[0]\n        muls.append(aug.value.value)\norder = sorted(zip(cmps, muls))\nif len(order) != 3 or any(op != "LtE" for (_, op), _ in order):\n    raise KeyError("linearTickRange thresholds: %r" % (order,))\nC["tickErr10"], C["tickErr5"], C["tickErr2"] = [("rat", rat(c[0])) for c, _ in order]\nC["tickMul10"], C["tickMul5"], C["tickMul2"] = [("rat", rat(m)) for _, m in order]\ndm = [n for n in ast.walk(f) if isinstance(n, ast.Assign) and isinstance(n.targets[0], ast.Name) and n.targets[0].id == "m"]\nC["tickDefaultCount"] = ("rat", rat(the_one([n.value.value for n in dm], "default m")))\nf = find_func(t, "d3_scale_linearPrecision")\nC["precisionFudge"] = ("rat", rat(the_one([v for v in num_literals(f) if v not in (10, 0)], "precision fudge")))\nC["timeScaleSteps"] = ("ratlist", [rat(x) for x in scale.d3_time_scaleSteps])\nnames = {id(v): k for k, v in scale.d3_time.items() if not callable(v) or hasattr(v, "floor")}\nmeths = []\nfor iv, k in scale.d3_time_scaleLocalMethods:\n    meths.append((names[id(iv)], k))\nC["timeScaleMethods"] = ("raw", "[" + ", ".join(\'("%s", %d)\' % (n, k) for n, k in meths) + "]", "List (String × Nat)")\nf = find_func(t, "tickMethod", "TimeScale")\nC["yearMillis"] = ("rat", rat(the_one([v for v in num_literals(f) if v > 1000], "tickMethod year length")))'), ('renderer / timeline defaults', '# ---- renderer / timeline defaults\nfor k in ("layerGap", "nodeHeight"):\n    C["rend_" + k] = ("rat", rat(rend.DEFAULT_OPTIONS[k]))\nC["rend_direction"] = ("str", rend.DEFAULT_OPTIONS["direction"])\nD = tl.DEFAULT_OPTIONS\nfor side in ("left", "right", "top", "bottom"):\n    C["tl_margin_" + side] = ("rat", rat(D["margin"][side]))\n    C["tl_pad_" + side] = ("rat", rat(D["labelPadding"][side]))\nfor k in ("initialWidth", "initialHeight", "dotRadius", "layerGap"):\n    C["tl_" + k] = ("rat", rat(D[k]))\nC["tl_direction"] = ("str", D["direction"])\nC["tl_defaultWidth"] = ("rat", rat(tl.DEFAULT_WIDTH))\nt = parse("labella/timeline.py")\nf = find_func(t, "__init__", "Item")\nC["tl_itemHeight"] = ("rat", rat(the_one([v for v in num_literals(f)], "Item height")))'), ('tex accents', '# ---- tex accents\nt = parse("labella/tex.py")\nf = find_func(t, "uni2tex")\nacc = None\nfor n in ast.walk(f):\n    if isinstance(n, ast.Dict) and n.keys and all(isinstance(k, ast.Constant) and isinstance(k.value, int) for k in n.keys):\n        acc = [(k.value, v.value) for k, v in zip(n.keys, n.values)]\nif not acc:\n    raise KeyError("accent table")\nC["texAccents"] = ("raw", "[" + ", ".join("(%d, %s)" % (k, json.dumps(v)) for k, v in acc) + "]", "List (Nat × String)")'), ('utils', '# ---- utils\nt = parse("labella/utils.py")\nf = find_func(t, "int2name")\nlits = num_literals(f)\nC["nameBase"] = ("nat", the_one([v for v in lits if v > 1 and v < 60], "int2name base"))\nC["nameFirstChar"] = ("nat", the_one([v for v in lits if v >= 60], "int2name first char"))\n')]
+
+
 def collect():
     sys.path.insert(0, REPO)
     for m in [k for k in sys.modules if k == "labella" or k.startswith("labella.")]:
@@ -76,110 +79,29 @@ def collect():
     rend = importlib.import_module("labella.renderer")
     tl = importlib.import_module("labella.timeline")
     C = {}  # name -> ("rat", Fraction) | ("optrat", x) | ("str", s) | ("ratlist", [...]) | raw lean text
-    # ---- vpsc
-    C["lagrangianTolerance"] = ("rat", rat(vpsc.Solver.LAGRANGIAN_TOLERANCE))
-    C["zeroUpperBound"] = ("rat", rat(vpsc.Solver.ZERO_UPPERBOUND))
-    t = parse("labella/vpsc.py")
-    solve = find_func(t, "solve", "Solver")
-    C["solveCostTolerance"] = ("rat", rat(the_one([v for v in num_literals(solve)], "Solver.solve literal")))
-    dfdv = find_func(t, "dfdv", "Variable")
-    C["dfdvFactor"] = ("rat", rat(the_one(num_literals(dfdv), "Variable.dfdv literal")))
-    # ---- removeOverlap
-    for k in ("lineSpacing", "nodeSpacing"):
-        C["ro_" + k] = ("rat", rat(ro.DEFAULT_OPTIONS[k]))
-    for k in ("minPos", "maxPos"):
-        C["ro_" + k] = ("optrat", ro.DEFAULT_OPTIONS[k])
-    t = parse("labella/removeOverlap.py")
-    f = find_func(t, "removeOverlap")
-    walls = []
-    for n in ast.walk(f):
-        if isinstance(n, ast.Call) and isinstance(n.func, ast.Attribute) and n.func.attr == "Variable" and len(n.args) >= 2:
-            if isinstance(n.args[1], ast.Constant):
-                walls.append(n.args[1].value)
-    if len(walls) != 2:
-        raise KeyError("removeOverlap wall variables: expected 2, found %d" % len(walls))
-    C["wallWeight"] = ("rat", rat(the_one(walls, "wall weight")))
-    halves = [n for n in ast.walk(f) if isinstance(n, ast.BinOp) and isinstance(n.op, ast.Div) and isinstance(n.right, ast.Constant)]
-    C["halfDivisor"] = ("rat", rat(the_one([n.right.value for n in halves], "removeOverlap divisors")))
-    # ---- distributor / force defaults
-    for k in ("layerWidth", "density", "nodeSpacing", "stubWidth"):
-        C["dist_" + k] = ("rat", rat(dist.DEFAULT_OPTIONS[k]))
-    C["dist_algorithm"] = ("str", dist.DEFAULT_OPTIONS["algorithm"])
-    for k in ("nodeSpacing", "density", "stubWidth"):
-        C["force_" + k] = ("rat", rat(force.DEFAULT_OPTIONS[k]))
-    for k in ("minPos", "maxPos"):
-        C["force_" + k] = ("optrat", force.DEFAULT_OPTIONS[k])
-    C["force_algorithm"] = ("str", force.DEFAULT_OPTIONS["algorithm"])
-    t = parse("labella/distributor.py")
-    f = find_func(t, "algorithm_overlap", "Distributor")
-    inner = [n for n in ast.walk(f) if isinstance(n, ast.While) and isinstance(n.test, ast.BoolOp)]
-    if len(inner) != 1:
-        raise KeyError("algorithm_overlap inner loop")
-    C["overlapMinLabels"] = ("rat", rat(the_one([n.comparators[0].value for n in ast.walk(inner[0].test)
-                                                 if isinstance(n, ast.Compare) and isinstance(n.comparators[0], ast.Constant)],
-                                                "len(nodesInCurrentLayer) > k")))
-    # ---- linear scale ticks
-    t = parse("labella/scale.py")
-    f = find_func(t, "d3_scale_linearTickRange")
-    cmps = []
-    muls = []
-    for n in ast.walk(f):
-        if isinstance(n, ast.If) and isinstance(n.test, ast.Compare) and isinstance(n.test.left, ast.Name) and n.test.left.id == "err":
-            cmps.append((n.test.comparators[0].value, type(n.test.ops[0]).__name__))
-            aug = n.body[0]
-            muls.append(aug.value.value)
-    order = sorted(zip(cmps, muls))
-    if len(order) != 3 or any(op != "LtE" for (_, op), _ in order):
-        raise KeyError("linearTickRange thresholds: %r" % (order,))
-    C["tickErr10"], C["tickErr5"], C["tickErr2"] = [("rat", rat(c[0])) for c, _ in order]
-    C["tickMul10"], C["tickMul5"], C["tickMul2"] = [("rat", rat(m)) for _, m in order]
-    dm = [n for n in ast.walk(f) if isinstance(n, ast.Assign) and isinstance(n.targets[0], ast.Name) and n.targets[0].id == "m"]
-    C["tickDefaultCount"] = ("rat", rat(the_one([n.value.value for n in dm], "default m")))
-    f = find_func(t, "d3_scale_linearPrecision")
-    C["precisionFudge"] = ("rat", rat(the_one([v for v in num_literals(f) if v not in (10, 0)], "precision fudge")))
-    C["timeScaleSteps"] = ("ratlist", [rat(x) for x in scale.d3_time_scaleSteps])
-    names = {id(v): k for k, v in scale.d3_time.items() if not callable(v) or hasattr(v, "floor")}
-    meths = []
-    for iv, k in scale.d3_time_scaleLocalMethods:
-        meths.append((names[id(iv)], k))
-    C["timeScaleMethods"] = ("raw", "[" + ", ".join('("%s", %d)' % (n, k) for n, k in meths) + "]", "List (String × Nat)")
-    f = find_func(t, "tickMethod", "TimeScale")
-    C["yearMillis"] = ("rat", rat(the_one([v for v in num_literals(f) if v > 1000], "tickMethod year length")))
-    # ---- renderer / timeline defaults
-    for k in ("layerGap", "nodeHeight"):
-        C["rend_" + k] = ("rat", rat(rend.DEFAULT_OPTIONS[k]))
-    C["rend_direction"] = ("str", rend.DEFAULT_OPTIONS["direction"])
-    D = tl.DEFAULT_OPTIONS
-    for side in ("left", "right", "top", "bottom"):
-        C["tl_margin_" + side] = ("rat", rat(D["margin"][side]))
-        C["tl_pad_" + side] = ("rat", rat(D["labelPadding"][side]))
-    for k in ("initialWidth", "initialHeight", "dotRadius", "layerGap"):
-        C["tl_" + k] = ("rat", rat(D[k]))
-    C["tl_direction"] = ("str", D["direction"])
-    C["tl_defaultWidth"] = ("rat", rat(tl.DEFAULT_WIDTH))
-    t = parse("labella/timeline.py")
-    f = find_func(t, "__init__", "Item")
-    C["tl_itemHeight"] = ("rat", rat(the_one([v for v in num_literals(f)], "Item height")))
-    # ---- tex accents
-    t = parse("labella/tex.py")
-    f = find_func(t, "uni2tex")
-    acc = None
-    for n in ast.walk(f):
-        if isinstance(n, ast.Dict) and n.keys and all(isinstance(k, ast.Constant) and isinstance(k.value, int) for k in n.keys):
-            acc = [(k.value, v.value) for k, v in zip(n.keys, n.values)]
-    if not acc:
-        raise KeyError("accent table")
-    C["texAccents"] = ("raw", "[" + ", ".join("(%d, %s)" % (k, json.dumps(v)) for k, v in acc) + "]", "List (Nat × String)")
-    # ---- utils
-    t = parse("labella/utils.py")
-    f = find_func(t, "int2name")
-    lits = num_literals(f)
-    C["nameBase"] = ("nat", the_one([v for v in lits if v > 1 and v < 60], "int2name base"))
-    C["nameFirstChar"] = ("nat", the_one([v for v in lits if v >= 60], "int2name first char"))
+    FAILED = []
+    env = dict(locals())
+    env.update(globals())
+    for title, src in SECTIONS:
+        try:
+            exec(src, env)
+        except Exception as e:      # the literal moved or changed shape: keep the previous values of this section's constants
+            FAILED.append((title, "%s: %s" % (type(e).__name__, e), re.findall(r'C\["(\w+)"\]', src) + re.findall(r'C\["(\w+)" \+', src)))
+    C["__failed__"] = FAILED
     return C
 
 
-def render(C):
+def render(C, old_text=""):
+    failed = C.pop("__failed__", [])
+    old = dict(re.findall(r"^def (\w+) : [^\n]*$", old_text, re.M) and [(m.group(1), m.group(0)) for m in re.finditer(r"^def (\w+) : [^\n]*$", old_text, re.M)])
+    keep = {}
+    for title, err, names in failed:
+        for n in names:
+            for k in [k for k in old if k == n or k.startswith(n)]:
+                if k not in C:
+                    keep[k] = old[k]
+    render.failed = failed
+    render.kept = sorted(keep)
     lines = ["/-! GENERATED by harness/extract_constants.py from the working tree of /repo — do not edit.",
              "Every value is the exact rational value of the Python literal (floats via their binary expansion). -/",
              "namespace Labella.Gen", ""]
@@ -199,6 +121,8 @@ def render(C):
             lines.append("def %s : List Rat := [%s]" % (k, ", ".join(lean_rat(x) for x in v[1])))
         elif v[0] == "raw":
             lines.append("def %s : %s := %s" % (k, v[2], v[1]))
+    lines += [keep[k] for k in sorted(keep)]
+    lines = lines[:3] + [""] + sorted(l for l in lines[3:] if l.startswith("def "))
     lines += ["", "end Labella.Gen", ""]
     return "\n".join(lines)
 
@@ -207,20 +131,26 @@ def main():
     out = OUT
     if "--out" in sys.argv:
         out = sys.argv[sys.argv.index("--out") + 1]
-    try:
-        text = render(collect())
-    except Exception as e:  # a located literal disappeared: keep the previous file
-        print("extract_constants: cannot locate a constant: %s: %s" % (type(e).__name__, e))
-        sys.exit(3)
     old = None
     if os.path.exists(out):
         with open(out) as fh:
             old = fh.read()
+    try:
+        text = render(collect(), old or "")
+    except Exception as e:  # nothing could be extracted at all: keep the previous file
+        print("extract_constants: cannot locate a constant: %s: %s" % (type(e).__name__, e))
+        print("UNLOCATED *")
+        sys.exit(3)
     if old != text:
         os.makedirs(os.path.dirname(out), exist_ok=True)
         with open(out, "w") as fh:
             fh.write(text)
         print("extract_constants: wrote %s" % os.path.normpath(out))
+    if render.failed:
+        for title, err, names in render.failed:
+            print("extract_constants: section '%s' could not be located (%s); previous values kept for: %s" % (title, err, ", ".join(names)))
+        print("UNLOCATED " + ",".join(sorted({n for _, _, names in render.failed for n in names})))
+        sys.exit(3)
     sys.exit(0)
 
 
